@@ -110,6 +110,8 @@ var (
 	key     string
 	fwdLog  []int // brokers a frame with the wanted payload was handed to since the last reset of the log
 	wanted  string
+	pubNode int
+	refwdLog []int
 	nowVal  int64 = 1
 )
 
@@ -138,7 +140,11 @@ func (f *fake) GossipUnicast(dst mesh.PeerName, msg []byte) error {
 	if frame, err := message.DecodeFrame(append([]byte{}, msg...)); err == nil {
 		for _, m := range frame {
 			if string(m.Payload) == wanted {
-				fwdLog = append(fwdLog, x)
+				if f.self == pubNode {
+					fwdLog = append(fwdLog, x)
+				} else {
+					refwdLog = append(refwdLog, x) // a broker that received the message forwards it again
+				}
 				break
 			}
 		}
@@ -419,11 +425,17 @@ func drain() string {
 func publish(name, ch, payload string) string {
 	c, i := client(name)
 	mu.Lock()
-	fwdLog, wanted = nil, string(vlib.UnHex(payload))
+	fwdLog, refwdLog, wanted, pubNode = nil, nil, string(vlib.UnHex(payload)), i
 	mu.Unlock()
 	c.Send(&mqtt.Publish{Header: mqtt.Header{QOS: 1}, MessageID: 7, Topic: topic(ch), Payload: vlib.UnHex(payload)})
 	c.Await("puback:")
 	nodes[i-1].sw.VerifC05Flush()
+	// whatever a receiving broker queued for other brokers (it must queue nothing) goes out too
+	for round := 0; round < 2; round++ {
+		for _, nd := range nodes {
+			nd.sw.VerifC05Flush()
+		}
+	}
 	barrier()
 	got := takeAll(payload)
 	mu.Lock()
@@ -434,7 +446,13 @@ func publish(name, ch, payload string) string {
 	for k, x := range fw {
 		fs[k] = strconv.Itoa(x)
 	}
-	return "fwd=" + strings.Join(fs, ",") + " got=" + strings.Join(got, ",")
+	out := "fwd=" + strings.Join(fs, ",") + " got=" + strings.Join(got, ",")
+	mu.Lock()
+	if len(refwdLog) > 0 {
+		out += fmt.Sprintf(" forwarded-again=%v", refwdLog)
+	}
+	mu.Unlock()
+	return out
 }
 
 func closeAll() {
